@@ -85,7 +85,16 @@ def love_of(out, typ):
 
 
 def love_dist(a, b):
-    return max(abs(x - y) for x, y in zip(a, b))
+    """max |difference| over (k, h, l); a number that is undefined (NaN: h and l above a static-liquid surface) must be undefined in both"""
+    d = 0.0
+    for x, y in zip(a, b):
+        xn, yn = (x != x), (y != y)
+        if xn and yn:
+            continue
+        if xn or yn:
+            return float("inf")
+        d = max(d, abs(x - y))
+    return d
 
 
 # ---------------------------------------------------------------------------------------------------------------------
@@ -179,8 +188,8 @@ def rel_vec_mismatch(ya, yb, factors, ref):
                 return float("inf"), i
             continue
         sc = max(abs(b), ref[i])
-        if sc == 0.0:
-            continue
+        if sc == 0.0 or max(abs(a), abs(b)) < 1e-12:
+            continue          # identically-zero solutions (free surface; loading above a static ocean) carry only round-off
         if abs(b) < 1e-6 * ref[i]:
             continue
         d = abs(a - b) / sc
@@ -234,7 +243,10 @@ def check_c03(ck, reps, outs, yscale):
         if "tidal" in rep["solveFor"] and "loading" in rep["solveFor"]:
             T, L = love_of(o, "tidal"), love_of(o, "loading")
             d = abs(L[0] - (T[0] - T[1]))
-            ck.case(("saito_molodensky",) + rep_key(rep), True)
+            if d != d:
+                d = 0.0          # h undefined (static-liquid surface): the relation has no content there
+            else:
+                ck.case(("saito_molodensky",) + rep_key(rep), True)
             worst[("saito_molodensky",)] = max(worst[("saito_molodensky",)], d)
             if not d <= allowed_shift(rep):
                 ck.violation({"clause": "saito_molodensky"}, "k_load = %s but k_tidal - h_tidal = %s (|diff| %.3g) for %s" % (L[0], T[0] - T[1], d, describe(rep)), describe(rep))
@@ -243,7 +255,7 @@ def check_c03(ck, reps, outs, yscale):
             ys = [cz(z) for z in o["surf"][t]]
             k, h, l_ = love_of(o, t)
             g = o["g_surf"]
-            d = max(abs(k - (ys[4] - 1.0)), abs(h - g * ys[0]), abs(l_ - g * ys[2]))
+            d = love_dist([k, h, l_], [ys[4] - 1.0, g * ys[0], g * ys[2]])
             ck.case(("slots", t) + rep_key(rep), True)
             if not d <= 1e-9:
                 ck.violation({"clause": "slot_layout", "type": t}, "love[%s] = (%s, %s, %s) is not (y5-1, g y1, g y3) of rows %d.. of the result: %s (%s)" % (
